@@ -12,6 +12,7 @@ import (
 	"fmt"
 	"runtime"
 	"strconv"
+	"strings"
 	"sync"
 	"time"
 
@@ -58,6 +59,7 @@ type Ctl struct {
 	anon       int
 	Trace      []string
 	timeout    time.Duration
+	wantUnregister bool
 }
 
 type k3named interface{ Name() gen.Atom }
@@ -89,6 +91,11 @@ func (c *Ctl) AddQueue(q any) { c.mu.Lock(); c.queues[q] = true; c.mu.Unlock() }
 func (c *Ctl) point(obj any, label string) {
 	c.mu.Lock()
 	if !c.on {
+		c.mu.Unlock()
+		return
+	}
+	if strings.HasPrefix(label, "unregister:") && !c.wantUnregister {
+		// yield point of the supervisor harness (C08): transparent for the other scenarios
 		c.mu.Unlock()
 		return
 	}
